@@ -1,0 +1,24 @@
+//! Verification hooks, compiled only with the `verif-hooks` feature.
+//!
+//! H2: observe the exact `Vec<Test>` that `Project::run_runnables` is about to hand to rayon.
+use aiken_lang::test_framework::Test;
+use std::cell::RefCell;
+
+type Audit = Box<dyn Fn(&[Test])>;
+
+thread_local! {
+    static AUDIT: RefCell<Option<Audit>> = const { RefCell::new(None) };
+}
+
+/// Register (or clear) the audit callback for the current thread.
+pub fn set_audit(callback: Option<Audit>) {
+    AUDIT.with(|a| *a.borrow_mut() = callback);
+}
+
+pub(crate) fn audit_tests(tests: &[Test]) {
+    AUDIT.with(|a| {
+        if let Some(callback) = a.borrow().as_ref() {
+            callback(tests);
+        }
+    });
+}
